@@ -230,6 +230,10 @@ func (w *responseWriter) writeHeader(status int) error {
 		}
 	}
 
+	// The peer must treat a response with an invalid field name or value, or with an empty,
+	// non-numeric or contradicting Content-Length, as malformed (RFC 9114, sections 4.1.2 and 4.2).
+	// Like net/http's HTTP/1 and HTTP/2 servers, don't put such fields on the wire.
+	var sentContentLength bool
 	for k, v := range w.header {
 		if _, excluded := w.trailers[k]; excluded {
 			continue
@@ -243,11 +247,24 @@ func (w *responseWriter) writeHeader(status int) error {
 		if slices.Contains(invalidHeaderFields[:], strings.ToLower(k)) {
 			continue
 		}
+		if !httpguts.ValidHeaderFieldName(strings.ToLower(k)) {
+			continue
+		}
 		for index := range v {
 			name := strings.ToLower(k)
 			value := v[index]
 			if name == "te" && value != "trailers" {
 				continue
+			}
+			if !httpguts.ValidHeaderFieldValue(value) {
+				continue
+			}
+			if name == "content-length" {
+				// at most one Content-Length, and only a valid one
+				if _, err := strconv.ParseUint(value, 10, 63); err != nil || sentContentLength {
+					continue
+				}
+				sentContentLength = true
 			}
 			if err := enc.WriteField(qpack.HeaderField{Name: name, Value: value}); err != nil {
 				return err
